@@ -60,11 +60,13 @@ func (w *Worker) Mine(ctx context.Context, data []byte, targetScore float64) (ui
 	go func() {
 		select {
 		case <-ctx.Done():
+			simYield("watcher.cancelled", simWatcher)
 			atomic.StoreUint32(&done, 1)
 		case <-closing:
 			return
 		}
 	}()
+	simYield("mine.spawned", simCaller)
 
 	// compute the minimum numbers of trailing zeros required to get a PoW score ≥ targetScore
 	targetZeros := uint(math.Ceil(math.Log(float64(len(data)+nonceBytes)*targetScore) / ln3))
@@ -72,21 +74,31 @@ func (w *Worker) Mine(ctx context.Context, data []byte, targetScore float64) (ui
 	workerWidth := math.MaxUint64 / uint64(w.numWorkers)
 	for i := 0; i < w.numWorkers; i++ {
 		startNonce := uint64(i) * workerWidth
+		wid := simWorker + i
 		wg.Add(1)
 		go func() {
 			defer wg.Done()
+			defer simYield("worker.exit", wid)
+			simYield("worker.start", wid)
 
 			nonce, workerErr := w.worker(powDigest, startNonce, targetZeros, &done, &counter)
 			if workerErr != nil {
 				return
 			}
+			simYield("worker.found", wid)
 			atomic.StoreUint32(&done, 1)
+			simYield("worker.send", wid)
 			results <- nonce
 		}()
+		simYield("mine.spawned", simCaller)
 	}
+	simYield("mine.wait", simCaller)
 	wg.Wait()
+	simYield("mine.joined", simCaller)
 	close(results)
+	simYield("mine.closedResults", simCaller)
 	close(closing)
+	simYield("mine.closedClosing", simCaller)
 
 	nonce, ok := <-results
 	if !ok {
@@ -113,6 +125,7 @@ func (w *Worker) worker(powDigest []byte, startNonce uint64, target uint, done *
 
 	digestTritsLen := b1t6.EncodedLen(len(powDigest))
 	for nonce := startNonce; atomic.LoadUint32(done) == 0; nonce += bct.MaxBatchSize {
+		simYield("worker.batch", simWorkerID(w, startNonce))
 		// add the nonce to each trit buffer
 		for i := range buf {
 			nonceBuf := buf[i][digestTritsLen:]
@@ -125,6 +138,7 @@ func (w *Worker) worker(powDigest []byte, startNonce uint64, target uint, done *
 			return 0, err
 		}
 		c.CopyState(l[:], h[:]) // the first 243 entries of the state correspond to the resulting hashes
+		simState(&l, &h, nonce)
 		atomic.AddUint64(counter, bct.MaxBatchSize)
 
 		// check the state whether it corresponds to a hash with sufficient amount of trailing zeros
